@@ -88,9 +88,19 @@ func (w *World) VerifyFunc(fn *ssa.Function, mode *Mode, prop string) (x *X, err
 	// user axioms
 	axEnv := &Env{x: x, st: st, vars: map[string]SV{}, pkg: funcPkg(fn)}
 	for _, ax := range w.Specs.Axioms {
+		if len(ax.Props) > 0 && prop != "" && !contains(ax.Props, prop) {
+			continue
+		}
 		var t *Term
 		if e := safeEval(func() { t = axEnv.Bool(ax.Expr) }); e != nil {
 			return x, fmt.Errorf("axiom %s: %v", ax.Name, e)
+		}
+		if ax.Lemma && !w.lemmaDone[ax.Name] {
+			// a lemma is proved once per run (from the axioms and lemmas before it) and only then assumed
+			w.lemmaDone[ax.Name] = true
+			o := &Obligation{Name: "lemma#" + ax.Name, Kind: "lemma", Func: x.root, Pos: fmt.Sprintf("%s:%d", ax.File, ax.Line), Guard: B.True(), Cond: t, NAssum: len(x.assums)}
+			o.Extra = map[string]string{"lemma": strings.TrimSpace(ax.Src)}
+			x.obligs = append(x.obligs, o)
 		}
 		x.assumeGlobal(t, "axiom "+ax.Name)
 	}
@@ -422,6 +432,41 @@ func (x *X) discharge(timeout time.Duration, workers int) []*OblResult {
 	}
 	close(ch)
 	wg.Wait()
+	// Second chance for undecided obligations: a timeout under machine load must
+	// not look like a failed proof. Re-run them a few at a time with a
+	// fourfold time limit; only a model of the full query counts as "failed".
+	var again []int
+	for _, i := range jobs {
+		r := results[i]
+		if r.Status == "unknown" || (r.Status == "failed" && strings.HasPrefix(r.Raw, "model of the quantifier-free relaxation")) {
+			again = append(again, i)
+		}
+	}
+	if len(again) > 0 && len(again) <= 24 && os.Getenv("GOVC_NO_RETRY") == "" {
+		sem := make(chan struct{}, 4)
+		var wg2 sync.WaitGroup
+		for _, i := range again {
+			wg2.Add(1)
+			sem <- struct{}{}
+			go func(i int) {
+				defer wg2.Done()
+				defer func() { <-sem }()
+				r := results[i]
+				mu.Lock()
+				full, _, _ := x.buildQuery(r.Obl, true, false)
+				mu.Unlock()
+				sr := Solve(full, fmt.Sprintf("%s_%d_retry", x.root, i), 4*timeout)
+				r.Seconds += sr.Seconds
+				switch sr.Status {
+				case "unsat":
+					r.Status, r.Solver, r.Raw = "discharged", sr.Solver+"(retry)", sr.Raw
+				case "sat":
+					r.Status, r.Solver, r.Raw, r.Model = "failed", sr.Solver, sr.Raw, sr.Model
+				}
+			}(i)
+		}
+		wg2.Wait()
+	}
 	return results
 }
 
